@@ -241,7 +241,9 @@ func RaceWorker(a string, _ string, _ int, reps int) {
 
 var frameRe = regexp.MustCompile(`(?m)^\s+(github\.com/ipld/go-ipld-prime/\S+)\(\)\s*$`)
 
-func raceSignature(report string) (string, string) {
+// RaceSignature extracts a stable signature (package + receiver type of the two top library frames)
+// and the text of the first race report in a race detector's output.
+func RaceSignature(report string) (string, string) {
 	i := strings.Index(report, "WARNING: DATA RACE")
 	if i < 0 {
 		return "", ""
@@ -321,7 +323,7 @@ func racePass(r *core.Run, quick bool) {
 			r.Transitions.Add(int64(reps))
 			body := sec[nl:]
 			for strings.Contains(body, "WARNING: DATA RACE") {
-				sig, blk := raceSignature(body)
+				sig, blk := RaceSignature(body)
 				if sig == "" {
 					break
 				}
